@@ -8,8 +8,9 @@ shards, index groups → indexes, users.  Go maps are association lists kept sor
 `apply : Data → Cmd → Data × Result` transcribes `storeFSM.executeCmd` for the modelled
 command types, branch by branch, *as the code is* (after the `fix:` commits listed in
 known_findings.jsonl), including the panics the code runs into (`Result.panic`, state kept).
-Where the Go code takes "the first element of a map" the model takes the element selected by
-`pick` (an oracle argument); `pick = 0` is the smallest key.
+Where the Go code used to take "the first element of a map" the model takes the element selected
+by `pick` (an oracle argument); `pick = 0` is the smallest key — which is what the code does since
+the `fix:` that makes it take the first measurement in name order (`firstMeasurement`).
 
 Times and durations are `Int` nanoseconds; ids are `Nat`.
 -/
@@ -544,6 +545,7 @@ def mkShards (d : Data) (rp : RP) (msti : Mst) (ig : IG) (tier : Nat) : List Sha
 
 def eNoMst (db rp : String) : String := "there_is_no_measurement_in_database_" ++ db ++ "_policy_" ++ rp
 def pIndexRange : String := "panic:_runtime_error:_index_out_of_range_[0]_with_length_0"
+def eNoShardKey (name : String) : String := "measurement_" ++ name ++ "_has_no_shard_key"
 
 /-! ### the commands -/
 
@@ -872,7 +874,7 @@ def alterShardKey (pick : Nat) (d : Data) (db rp mst : String) (ski : Option Sha
     | some m =>
       if m.markDeleted then fail d eMstNotFound
       else match m.shardKeys.getLast? with
-        | none => (d, .panic "panic:_runtime_error:_index_out_of_range_[-1]")
+        | none => fail d (eNoShardKey m.name)     -- `fix:` a guard instead of the panic on ShardKeys[len-1]
         | some last =>
           let s : ShardKey := ski.getD default
           if s.typ ≠ last.typ then fail d ("sharding_type_are_not_equal_in_" ++ rp ++ "_exist_type_" ++ s.typ ++ "_inputType_" ++ last.typ)
@@ -909,9 +911,9 @@ def createShardGroup (pick : Nat) (d : Data) (db rp : String) (ts : Int) (tier e
         | some msti =>
           match msti.shardKeys with
           | [] =>
-            -- the index group (if needed), the group id and the shard ids are taken, then
-            -- `msti.ShardKeys[0]` panics before the group is appended
-            (d, .panic pIndexRange)
+            -- `fix:` refused before any id is taken (it used to panic on `msti.ShardKeys[0]`
+            -- after the index group, the group id and the shard ids had been taken)
+            fail d (eNoShardKey msti.name)
           | _ :: _ =>
             let (d1, r1, ig) := indexGroupFor d r ts engine
             let start := truncateTime ts r1.sgDuration
